@@ -1,482 +1,238 @@
-import MJ.Proofs.SafeProg
+import MJ.Proofs.SafeFlag
 /-! C02, stage "programs / syntactic fragment": the safe-marking-free fragment as a predicate on the
-program text (`HtmlOnlyP`), and the proof that the *unguarded* interpreter preserves the machine
-invariant on such programs. -/
+program text.  The predicate follows the auto-escape mode `m` (Html / None — Json is outside the
+fragment) and the kind of the innermost output target `k` (`true` = opaque: discarded output, the
+capture of an `import`, a capture that ends in mode `None`) through the statements:
+
+* an expression may be written only under Html, or into an opaque target (`allows`);
+* a capture begun in mode `m` is opaque iff `m` is not Html;
+* `{% autoescape %}` switches the mode for its body: `true`/`"html"` to Html, `false`/`"none"` to None;
+* bodies that run in a mode decided elsewhere — macros, call blocks, recursive loops — must be fine
+  under both (Html, clean target) and (None, opaque target): `Poly`;
+* a template whose name selects None may be imported anywhere (its top level writes into the module
+  capture) and included only where the target is opaque; blocks and `super()` need Html. -/
 namespace MJ.Safe
 
 /-- the named filter is modelled and belongs to the fragment (not `safe`, not `tojson`) -/
 def FilterOk (name : String) (ps : List Nat) : Prop :=
-  ∀ g ok, lookupF name .html ps = some (g, ok) → ok = true
+  ∀ m g ok, lookupF name m ps = some (g, ok) → ok = true
 
-/-- `{% autoescape true %}` / `{% autoescape "html" %}` -/
-def AutoOk : AutoArg → Prop
-  | .tru => True
-  | .str s => s = "html"
-  | .fals => False
+/-- may an expression be written?  Html escapes it; an opaque target never becomes a `Safe` string -/
+def allows (m : Mode) (k : Bool) : Prop := m = .html ∨ (m = .none ∧ k = true)
+
+/-- the mode an `autoescape` block of the fragment selects -/
+def autoMode : AutoArg → Option Mode
+  | .tru => some .html
+  | .fals => some .none
+  | .str s => if s = "html" then some .html else if s = "none" then some .none else Option.none
 
 mutual
-inductive HtmlOnlyE : Expr → Prop
-  | var (n : String) : HtmlOnlyE (.var n)
-  | lit (s : String) : HtmlOnlyE (.lit s)
-  | int (n : Int) : HtmlOnlyE (.int n)
-  | bool (b : Bool) : HtmlOnlyE (.bool b)
-  | none : HtmlOnlyE .none
-  | cat {a b : Expr} : HtmlOnlyE a → HtmlOnlyE b → HtmlOnlyE (.cat a b)
-  | add {a b : Expr} : HtmlOnlyE a → HtmlOnlyE b → HtmlOnlyE (.add a b)
-  | mul {a : Expr} (n : Nat) : HtmlOnlyE a → HtmlOnlyE (.mul a n)
-  | filt {name : String} {ps : List Nat} {args : List Expr} :
-      FilterOk name ps → HtmlOnlyEs args → HtmlOnlyE (.filt name ps args)
-  | meth {name : String} {ps : List Nat} {args : List Expr} :
-      (∀ k, FilterOk (k ++ "." ++ name) ps) → HtmlOnlyEs args → HtmlOnlyE (.meth name ps args)
-  | index {a : Expr} (k : Nat) : HtmlOnlyE a → HtmlOnlyE (.index a k)
-  | slice {a : Expr} (x y : Nat) : HtmlOnlyE a → HtmlOnlyE (.slice a x y)
-  | attr {a : Expr} (key : String) : HtmlOnlyE a → HtmlOnlyE (.attr a key)
-  | list {xs : List Expr} : HtmlOnlyEs xs → HtmlOnlyE (.list xs)
-  | dict {kvs : List (String × Expr)} : HtmlOnlyKs kvs → HtmlOnlyE (.dict kvs)
-  | call {args : List Expr} (m : String) : HtmlOnlyEs args → HtmlOnlyE (.call m args)
-  | caller : HtmlOnlyE .caller
-  | super : HtmlOnlyE .super
-  | loopRec {e : Expr} : HtmlOnlyE e → HtmlOnlyE (.loopRec e)
-  | loopIndex : HtmlOnlyE .loopIndex
-  | loopFirst : HtmlOnlyE .loopFirst
-  | not {e : Expr} : HtmlOnlyE e → HtmlOnlyE (.not e)
-  | cond {c a b : Expr} : HtmlOnlyE c → HtmlOnlyE a → HtmlOnlyE b → HtmlOnlyE (.cond c a b)
-inductive HtmlOnlyEs : List Expr → Prop
-  | nil : HtmlOnlyEs []
-  | cons {e : Expr} {es : List Expr} : HtmlOnlyE e → HtmlOnlyEs es → HtmlOnlyEs (e :: es)
-inductive HtmlOnlyKs : List (String × Expr) → Prop
-  | nil : HtmlOnlyKs []
-  | cons {k : String} {e : Expr} {kvs : List (String × Expr)} :
-      HtmlOnlyE e → HtmlOnlyKs kvs → HtmlOnlyKs ((k, e) :: kvs)
+inductive OkE : Mode → Expr → Prop
+  | var {m : Mode} (n : String) : OkE m (.var n)
+  | lit {m : Mode} (s : String) : OkE m (.lit s)
+  | int {m : Mode} (n : Int) : OkE m (.int n)
+  | bool {m : Mode} (b : Bool) : OkE m (.bool b)
+  | none {m : Mode} : OkE m .none
+  | cat {m : Mode} {a b : Expr} : OkE m a → OkE m b → OkE m (.cat a b)
+  | add {m : Mode} {a b : Expr} : OkE m a → OkE m b → OkE m (.add a b)
+  | mul {m : Mode} {a : Expr} (n : Nat) : OkE m a → OkE m (.mul a n)
+  | filt {m : Mode} {name : String} {ps : List Nat} {args : List Expr} :
+      FilterOk name ps → OkEs m args → OkE m (.filt name ps args)
+  | meth {m : Mode} {name : String} {ps : List Nat} {args : List Expr} :
+      (∀ k ∈ ["str", "dict", "list"], FilterOk (k ++ "." ++ name) ps) → OkEs m args → OkE m (.meth name ps args)
+  | index {m : Mode} {a : Expr} (k : Nat) : OkE m a → OkE m (.index a k)
+  | slice {m : Mode} {a : Expr} (x y : Nat) : OkE m a → OkE m (.slice a x y)
+  | attr {m : Mode} {a : Expr} (key : String) : OkE m a → OkE m (.attr a key)
+  | list {m : Mode} {xs : List Expr} : OkEs m xs → OkE m (.list xs)
+  | dict {m : Mode} {kvs : List (String × Expr)} : OkKs m kvs → OkE m (.dict kvs)
+  | call {m : Mode} {args : List Expr} (g : String) : OkEs m args → OkE m (.call g args)
+  | modCall {m : Mode} {args : List Expr} (a g : String) : OkEs m args → OkE m (.modCall a g args)
+  | modVar {m : Mode} (a x : String) : OkE m (.modVar a x)
+  | caller {m : Mode} : OkE m .caller
+  /-- `super()` runs a block of the chain: Html only -/
+  | super {m : Mode} : m = .html → OkE m .super
+  | loopRec {m : Mode} {e : Expr} : OkE m e → OkE m (.loopRec e)
+  | loopIndex {m : Mode} : OkE m .loopIndex
+  | loopFirst {m : Mode} : OkE m .loopFirst
+  | not {m : Mode} {e : Expr} : OkE m e → OkE m (.not e)
+  | cond {m : Mode} {c a b : Expr} : OkE m c → OkE m a → OkE m b → OkE m (.cond c a b)
+inductive OkEs : Mode → List Expr → Prop
+  | nil {m : Mode} : OkEs m []
+  | cons {m : Mode} {e : Expr} {es : List Expr} : OkE m e → OkEs m es → OkEs m (e :: es)
+inductive OkKs : Mode → List (String × Expr) → Prop
+  | nil {m : Mode} : OkKs m []
+  | cons {m : Mode} {k : String} {e : Expr} {kvs : List (String × Expr)} :
+      OkE m e → OkKs m kvs → OkKs m ((k, e) :: kvs)
 end
 
 mutual
-inductive HtmlOnlyS : Stmt → Prop
-  | text (s : String) : HtmlOnlyS (.text s)
-  | emit {e : Expr} : HtmlOnlyE e → HtmlOnlyS (.emit e)
-  | set {e : Expr} (n : String) : HtmlOnlyE e → HtmlOnlyS (.set n e)
-  | setBlock {body : List Stmt} (n : String) : HtmlOnlySs body → HtmlOnlyS (.setBlock n Option.none body)
-  | setBlockF {body : List Stmt} {name : String} {ps : List Nat} (n : String) :
-      FilterOk name ps → HtmlOnlySs body → HtmlOnlyS (.setBlock n (some (name, ps)) body)
-  | filterBlock {body : List Stmt} {name : String} {ps : List Nat} :
-      FilterOk name ps → HtmlOnlySs body → HtmlOnlyS (.filterBlock name ps body)
-  | forIn {it : Expr} {body els : List Stmt} (v : String) (r : Bool) :
-      HtmlOnlyE it → HtmlOnlySs body → HtmlOnlySs els → HtmlOnlyS (.forIn v it r body els)
-  | ifE {c : Expr} {a b : List Stmt} : HtmlOnlyE c → HtmlOnlySs a → HtmlOnlySs b → HtmlOnlyS (.ifE c a b)
-  | withE {e : Expr} {body : List Stmt} (n : String) : HtmlOnlyE e → HtmlOnlySs body → HtmlOnlyS (.withE n e body)
-  | callBlock {args : List Expr} {body : List Stmt} (m : String) :
-      HtmlOnlyEs args → HtmlOnlySs body → HtmlOnlyS (.callBlock m args body)
-  | incl (name : String) : HtmlOnlyS (.incl name)
-  | block {body : List Stmt} (name : String) : HtmlOnlySs body → HtmlOnlyS (.block name body)
-  | auto {a : AutoArg} {body : List Stmt} : AutoOk a → HtmlOnlySs body → HtmlOnlyS (.auto a body)
-inductive HtmlOnlySs : List Stmt → Prop
-  | nil : HtmlOnlySs []
-  | cons {s : Stmt} {ss : List Stmt} : HtmlOnlyS s → HtmlOnlySs ss → HtmlOnlySs (s :: ss)
+inductive OkS (p : Prog) : Mode → Bool → Stmt → Prop
+  | text {m : Mode} {k : Bool} (s : String) : OkS p m k (.text s)
+  | emit {m : Mode} {k : Bool} {e : Expr} : allows m k → OkE m e → OkS p m k (.emit e)
+  | set {m : Mode} {k : Bool} {e : Expr} (n : String) : OkE m e → OkS p m k (.set n e)
+  | setBlock {m : Mode} {k : Bool} {body : List Stmt} (n : String) :
+      OkSs p m (m != .html) body → OkS p m k (.setBlock n Option.none body)
+  | setBlockF {m : Mode} {k : Bool} {body : List Stmt} {name : String} {ps : List Nat} (n : String) :
+      FilterOk name ps → OkSs p m (m != .html) body → OkS p m k (.setBlock n (some (name, ps)) body)
+  | filterBlock {m : Mode} {k : Bool} {body : List Stmt} {name : String} {ps : List Nat} :
+      allows m k → FilterOk name ps → OkSs p m (m != .html) body → OkS p m k (.filterBlock name ps body)
+  | forIn {m : Mode} {k : Bool} {it : Expr} {body els : List Stmt} (v : String) :
+      OkE m it → OkSs p m k body → OkSs p m k els → OkS p m k (.forIn v it false body els)
+  /-- the body of a recursive loop also runs inside the capture of `loop(…)`, in the mode found there -/
+  | forRec {m : Mode} {k : Bool} {it : Expr} {body els : List Stmt} (v : String) :
+      OkE m it → OkSs p m k body → OkSs p m k els → OkSs p .html false body → OkSs p .none true body →
+      OkS p m k (.forIn v it true body els)
+  | ifE {m : Mode} {k : Bool} {c : Expr} {a b : List Stmt} : OkE m c → OkSs p m k a → OkSs p m k b → OkS p m k (.ifE c a b)
+  | withE {m : Mode} {k : Bool} {e : Expr} {body : List Stmt} (n : String) : OkE m e → OkSs p m k body → OkS p m k (.withE n e body)
+  /-- the body of a call block runs where the macro calls `caller()` -/
+  | callBlock {m : Mode} {k : Bool} {args : List Expr} {body : List Stmt} (g : String) :
+      allows m k → OkEs m args → OkSs p .html false body → OkSs p .none true body → OkS p m k (.callBlock g args body)
+  /-- the included template runs in the mode ITS name selects and writes into the current target -/
+  | incl {m : Mode} {k : Bool} (name : String) : allows (modeOf p name) k → OkS p m k (.incl name)
+  /-- a block (and whatever overrides it) runs under Html -/
+  | block {m : Mode} {k : Bool} {body : List Stmt} (name : String) : m = .html → OkSs p .html false body → OkS p m k (.block name body)
+  | auto {m m' : Mode} {k : Bool} {a : AutoArg} {body : List Stmt} : autoMode a = some m' → OkSs p m' k body → OkS p m k (.auto a body)
+inductive OkSs (p : Prog) : Mode → Bool → List Stmt → Prop
+  | nil {m : Mode} {k : Bool} : OkSs p m k []
+  | cons {m : Mode} {k : Bool} {s : Stmt} {ss : List Stmt} : OkS p m k s → OkSs p m k ss → OkSs p m k (s :: ss)
 end
 
-/-- the safe-marking-free fragment with HTML auto-escaping in effect: every template has an
-    `*.html`/`*.htm`/`*.xml` name (by `default_auto_escape_callback`), every `autoescape` block is
-    `true`/`"html"`, every filter is modelled and none is `safe`/`tojson` -/
-def HtmlOnlyP (p : Prog) : Prop :=
-  ∀ t ∈ p.templates, autoEscapeOfName t.name = .html ∧ HtmlOnlySs t.body ∧ ∀ md ∈ t.macros, HtmlOnlySs md.body
+/-- fine wherever it can run: under Html with a clean target and under None with an opaque one -/
+def Poly (p : Prog) (ss : List Stmt) : Prop := OkSs p .html false ss ∧ OkSs p .none true ss
 
-structure EnvOk (env : Env) : Prop where
-  mode : env.mode = .html
-  init : env.initMode = .html
-  prog : HtmlOnlyP env.prog
-  caller : ∀ body vars, env.caller = some (body, vars) → HtmlOnlySs body
-  recLoop : ∀ v body, env.recLoop = some (v, body) → HtmlOnlySs body
-  supers : ∀ b ∈ env.supers, HtmlOnlySs b
-  chains : ∀ n bs, env.chains.lookup n = some bs → ∀ b ∈ bs, HtmlOnlySs b
+theorem allows_mono {m : Mode} {k : Bool} (h : allows m k) : allows m true := by
+  rcases h with h | ⟨h, _⟩
+  · exact Or.inl h
+  · exact Or.inr ⟨h, rfl⟩
 
+mutual
+/-- what is fine with a clean target is fine with an opaque one -/
+theorem OkS.mono {p : Prog} {m : Mode} : ∀ {k : Bool} {s : Stmt}, OkS p m k s → OkS p m true s
+  | _, _, .text s => .text s
+  | _, _, .emit ha he => .emit (allows_mono ha) he
+  | _, _, .set n he => .set n he
+  | _, _, .setBlock n hb => .setBlock n hb
+  | _, _, .setBlockF n hf hb => .setBlockF n hf hb
+  | _, _, .filterBlock ha hf hb => .filterBlock (allows_mono ha) hf hb
+  | _, _, .forIn v hi hb he => .forIn v hi (OkSs.mono hb) (OkSs.mono he)
+  | _, _, .forRec v hi hb he h1 h2 => .forRec v hi (OkSs.mono hb) (OkSs.mono he) h1 h2
+  | _, _, .ifE hc ha hb => .ifE hc (OkSs.mono ha) (OkSs.mono hb)
+  | _, _, .withE n he hb => .withE n he (OkSs.mono hb)
+  | _, _, .callBlock g ha hargs h1 h2 => .callBlock g (allows_mono ha) hargs h1 h2
+  | _, _, .incl name ha => .incl name (allows_mono ha)
+  | _, _, .block name hm hb => .block name hm hb
+  | _, _, .auto ha hb => .auto ha (OkSs.mono hb)
+theorem OkSs.mono {p : Prog} {m : Mode} : ∀ {k : Bool} {ss : List Stmt}, OkSs p m k ss → OkSs p m true ss
+  | _, _, .nil => .nil
+  | _, _, .cons h hs => .cons (OkS.mono h) (OkSs.mono hs)
+end
 
-/-! ### unguarded primitives in Html mode -/
+theorem OkSs.anySink {p : Prog} {m : Mode} {ss : List Stmt} (h : OkSs p m false ss) (k : Bool) : OkSs p m k ss := by
+  cases k
+  · exact h
+  · exact h.mono
 
-theorem Pres.emitG_html {env : Env} (h : env.mode = .html) (r : Nat) : Pres (Safe.emitG false env r) := by
-  simp only [Safe.emitG, Bool.false_and, Bool.false_eq_true, if_false]
-  exact Pres.stepM (by simp only [StepOk, h])
+/-- a `Poly` body is fine inside any capture: begun in mode `m`, the capture is opaque iff `m` is not Html -/
+theorem Poly.inCapture {p : Prog} {ss : List Stmt} (h : Poly p ss) {m : Mode} (hm : m ≠ .json) : OkSs p m (m != .html) ss := by
+  cases m with
+  | html => exact h.1
+  | none => exact h.2
+  | json => exact absurd rfl hm
 
-theorem Pres.applyG_html {env : Env} {g : Fn} (ok : Bool) (rs : List Nat) (hg : InvPreserving g) :
-    Pres (Safe.applyG false env g ok rs) := by
-  simp only [Safe.applyG, Bool.false_and, Bool.false_eq_true, if_false]
-  exact Pres.pushM hg
+/-- the top level of a template in the mode its name selects: a None template writes only into opaque targets -/
+def TmplOk (p : Prog) (t : Tmpl) : Prop :=
+  modeOf p t.name ≠ .json ∧
+  OkSs p (modeOf p t.name) (modeOf p t.name != .html) t.pre ∧
+  OkSs p (modeOf p t.name) (modeOf p t.name != .html) t.body ∧
+  ∀ md ∈ t.macros, Poly p md.body
 
-theorem Pres.applyNamed_html {env : Env} {name : String} {ps : List Nat} (h : env.mode = .html)
-    (hf : FilterOk name ps) (rs : List Nat) : Pres (Safe.applyNamed false env name ps rs) := by
-  unfold Safe.applyNamed
-  split
-  · exact Pres.fail
-  · rename_i g ok hl
-    rw [h] at hl
-    have := hf g ok hl
-    subst this
-    exact Pres.applyG_html _ _ (named_models_preserve_inv_map name ps g hl)
+/-- **the fragment**: no template name selects Json; the top level of every template is fine in the
+    mode its name selects (a template whose name selects None writes only into opaque targets: it can be
+    imported anywhere, included only inside captures that end in None); macro bodies are `Poly`; the
+    rendered template selects Html and every template of its inheritance chain is fine under Html
+    (parents run in the mode of the rendered template, whatever their own name says) -/
+structure ProgOk (p : Prog) : Prop where
+  tmpls : ∀ t ∈ p.templates, TmplOk p t
+  main : modeOf p p.main = .html
+  chain : ∀ t ∈ inheritChain p (p.templates.length + 1) p.main, OkSs p .html false t.pre ∧ OkSs p .html false t.body
 
-/-! ### environments of the fragment -/
+/-- facts about the environment the unguarded interpreter relies on -/
+structure EnvFrag (env : Env) : Prop where
+  prog : ∀ t ∈ env.prog.templates, TmplOk env.prog t
+  caller : ∀ c, env.caller = some c → Poly env.prog c.body
+  recLoop : ∀ v body, env.recLoop = some (v, body) → Poly env.prog body
+  supers : ∀ b ∈ env.supers, OkSs env.prog .html false b
+  chains : ∀ n bs, env.chains.lookup n = some bs → ∀ b ∈ bs, OkSs env.prog .html false b
 
-theorem EnvOk.withVars {env : Env} (h : EnvOk env) (vars : List (String × Nat)) :
-    EnvOk { env with vars := vars } :=
-  ⟨h.mode, h.init, h.prog, h.caller, h.recLoop, h.supers, h.chains⟩
+/-- what the interpreter maintains in both modes of operation: never Json; an opaque target is an
+    unflagged buffer; (unguarded only) the environment holds fragment code -/
+structure EnvInv (strict : Bool) (env : Env) (fl : List Bool) : Prop where
+  mode : env.mode ≠ .json
+  init : env.initMode ≠ .json
+  sink : env.opaq = true → ∃ r, fl = false :: r
+  frag : strict = false → EnvFrag env
 
-theorem EnvOk.withLoop {env : Env} (h : EnvOk env) (vars : List (String × Nat)) (k : Option Nat) :
-    EnvOk { env with vars := vars, loopIdx := k } :=
-  ⟨h.mode, h.init, h.prog, h.caller, h.recLoop, h.supers, h.chains⟩
-
-theorem EnvOk.withRec {env : Env} (h : EnvOk env) (r : Bool) (v : String) {body : List Stmt}
-    (hb : HtmlOnlySs body) : EnvOk { env with recLoop := if r then some (v, body) else Option.none } := by
-  refine ⟨h.mode, h.init, h.prog, h.caller, ?_, h.supers, h.chains⟩
-  intro v' body' heq
-  cases r
-  · simp at heq
-  · simp only [if_true, Option.some.injEq, Prod.mk.injEq] at heq
-    obtain ⟨_, rfl⟩ := heq; exact hb
-
-theorem EnvOk.forMacro {env : Env} (h : EnvOk env) (vars : List (String × Nat))
-    (caller : Option (List Stmt × List (String × Nat)))
-    (hc : ∀ body vs, caller = some (body, vs) → HtmlOnlySs body) : EnvOk (env.forMacro vars caller) := by
-  refine ⟨h.mode, h.mode, h.prog, hc, ?_, ?_, h.chains⟩
-  · intro v body heq; cases heq
-  · intro b hb; cases hb
-
-theorem EnvOk.forSuper {env : Env} (h : EnvOk env) {rest : List (List Stmt)} (hr : ∀ b ∈ rest, HtmlOnlySs b) :
-    EnvOk { env with supers := rest, initMode := env.mode, loopIdx := Option.none, recLoop := Option.none } := by
-  refine ⟨h.mode, h.mode, h.prog, h.caller, ?_, hr, h.chains⟩
-  intro v body heq; cases heq
-
-theorem EnvOk.forInclude {env : Env} (h : EnvOk env) {m : Mode} (hm : m = .html) :
-    EnvOk { env with mode := m, initMode := m, loopIdx := Option.none, recLoop := Option.none, caller := Option.none, supers := [], chains := [] } := by
-  refine ⟨hm, hm, h.prog, ?_, ?_, ?_, ?_⟩
-  · intro body vars heq; cases heq
-  · intro v body heq; cases heq
-  · intro b hb; cases hb
-  · intro n bs heq; simp [List.lookup] at heq
-
-theorem EnvOk.withMode {env : Env} (h : EnvOk env) {m : Mode} (hm : m = .html) : EnvOk { env with mode := m } :=
-  ⟨hm, h.init, h.prog, h.caller, h.recLoop, h.supers, h.chains⟩
-
-theorem derive_html {a : AutoArg} {m : Mode} (ha : AutoOk a) (h : deriveAutoEscape a .html = some m) : m = .html := by
+theorem derive_autoMode {a : AutoArg} {init m m' : Mode} (ha : autoMode a = some m') (hi : init ≠ .json)
+    (h : deriveAutoEscape a init = some m) : m = m' := by
   cases a with
-  | tru => simp [deriveAutoEscape] at h; exact h.symm
-  | fals => exact absurd ha (by simp [AutoOk])
+  | tru =>
+    simp only [autoMode, Option.some.injEq] at ha
+    simp only [deriveAutoEscape, Option.some.injEq] at h
+    subst ha h
+    cases init <;> simp at hi ⊢
+  | fals =>
+    simp only [autoMode, Option.some.injEq] at ha
+    simp only [deriveAutoEscape, Option.some.injEq] at h
+    subst ha h; rfl
   | str s =>
-    simp only [AutoOk] at ha
-    subst ha
-    simp [deriveAutoEscape] at h; exact h.symm
+    simp only [autoMode] at ha
+    split at ha
+    · rename_i hs
+      subst hs
+      simp only [deriveAutoEscape, Option.some.injEq] at h ha
+      subst ha h; rfl
+    · split at ha
+      · rename_i hs
+        subst hs
+        simp only [deriveAutoEscape, Option.some.injEq] at h ha
+        subst ha h; rfl
+      · cases ha
+
+/-- `derive_auto_escape` never yields Json unless asked for it by name or already there -/
+theorem derive_not_json {a : AutoArg} {init m : Mode} (hi : init ≠ .json) (h : deriveAutoEscape a init = some m)
+    (hj : (m == .json) = false) : m ≠ .json := by
+  intro hm; subst hm; simp at hj
+
+theorem autoMode_not_json {a : AutoArg} {m : Mode} (h : autoMode a = some m) : m ≠ .json := by
+  cases a with
+  | tru => simp only [autoMode, Option.some.injEq] at h; subst h; simp
+  | fals => simp only [autoMode, Option.some.injEq] at h; subst h; simp
+  | str s =>
+    simp only [autoMode] at h
+    split at h
+    · simp only [Option.some.injEq] at h; subst h; simp
+    · split at h
+      · simp only [Option.some.injEq] at h; subst h; simp
+      · cases h
+
+theorem methodKind_mem {v : V} {k : String} (h : methodKind v = some k) : k ∈ ["str", "dict", "list"] := by
+  unfold methodKind at h
+  split at h <;> simp_all
 
 theorem find?_mem_pred {α : Type} {p : α → Bool} {l : List α} {a : α} (h : l.find? p = some a) : a ∈ l ∧ p a = true :=
   ⟨List.mem_of_find?_eq_some h, List.find?_some h⟩
 
-theorem findMacro_ok {p : Prog} (hp : HtmlOnlyP p) {m : String} {md : MacroDef} (h : findMacro p m = some md) :
-    HtmlOnlySs md.body := by
-  unfold findMacro at h
-  have hm := (find?_mem_pred h).1
-  obtain ⟨t, ht, hmd⟩ := List.mem_flatMap.mp hm
-  exact (hp t ht).2.2 md hmd
-
-theorem findTmpl_ok {p : Prog} (hp : HtmlOnlyP p) {name : String} {t : Tmpl} (h : findTmpl p name = some t) :
-    autoEscapeOfName name = .html ∧ HtmlOnlySs t.body := by
+theorem findTmpl_mem {p : Prog} {name : String} {t : Tmpl} (h : findTmpl p name = some t) : t ∈ p.templates ∧ t.name = name := by
   unfold findTmpl at h
   obtain ⟨hm, hn⟩ := find?_mem_pred h
-  have : t.name = name := by simpa using hn
-  subst this
-  exact ⟨(hp t hm).1, (hp t hm).2.1⟩
+  exact ⟨hm, by simpa using hn⟩
 
-
-theorem blockBodies_ok {env : Env} (h : EnvOk env) {name : String} {dflt b : List Stmt} {rest : List (List Stmt)}
-    (hd : HtmlOnlySs dflt) (heq : (env.chains.lookup name).getD [dflt] = b :: rest) :
-    HtmlOnlySs b ∧ ∀ x ∈ rest, HtmlOnlySs x := by
-  cases hl : env.chains.lookup name with
-  | none =>
-    rw [hl] at heq
-    simp only [Option.getD_none, List.cons.injEq] at heq
-    obtain ⟨rfl, rfl⟩ := heq
-    exact ⟨hd, by intro x hx; cases hx⟩
-  | some bs =>
-    rw [hl] at heq
-    simp only [Option.getD_some] at heq
-    have := h.chains name bs hl
-    subst heq
-    exact ⟨this b List.mem_cons_self, fun x hx => this x (List.mem_cons_of_mem _ hx)⟩
-
-theorem caller_none_ok : ∀ (b : List Stmt) (vs : List (String × Nat)),
-    (Option.none : Option (List Stmt × List (String × Nat))) = some (b, vs) → HtmlOnlySs b := by
-  intro b vs h; cases h
-
-theorem caller_some_ok {body : List Stmt} {vars : List (String × Nat)} (hb : HtmlOnlySs body) :
-    ∀ b vs, some (body, vars) = some (b, vs) → HtmlOnlySs b := by
-  intro b vs h; cases h; exact hb
-
-set_option hygiene false in
-macro "envok" : tactic => `(tactic| first
-  | exact hEnv
-  | exact hEnv.withVars _
-  | exact hEnv.withLoop _ _
-  | exact hEnv.withRec _ _ ‹_›
-  | exact (hEnv.withRec _ _ ‹_›).withLoop _ _
-  | exact hEnv.forSuper ‹_›
-  | exact hEnv.forInclude ‹_›
-  | exact hEnv.withMode ‹_›
-  | exact hEnv.forMacro _ _ caller_none_ok
-  | exact hEnv.forMacro _ _ (caller_some_ok ‹_›))
-
-set_option hygiene false in
-macro "pres2" : tactic => `(tactic| repeat' (first
-  | with_reducible exact Pres.pure _
-  | with_reducible exact Pres.fail
-  | with_reducible exact Pres.readM _
-  | with_reducible exact Pres.emitG_html hEnv.mode _
-  | with_reducible exact Pres.applyNamed_html hEnv.mode ‹_› _
-  | with_reducible exact Pres.bindParams _ _
-  | with_reducible exact Pres.applyG_html _ _ concatF_inv
-  | with_reducible exact Pres.applyG_html _ _ addF_inv
-  | with_reducible exact Pres.applyG_html _ _ (repeatF_inv _)
-  | with_reducible exact Pres.applyG_html _ _ (elemF_inv _)
-  | with_reducible exact Pres.applyG_html _ _ (sliceF_inv _ _)
-  | with_reducible exact Pres.applyG_html _ _ (attrF_inv _)
-  | with_reducible exact Pres.applyG_html _ _ charsF_inv
-  | exact Pres.stepM (by simp only [StepOk])
-  | exact Pres.pushM (by simp only [StepOk])
-  | exact ihE _ _ (by envok) ‹_›
-  | exact ihA _ _ (by envok) ‹_›
-  | exact ihK _ _ (by envok) ‹_›
-  | exact ihF _ _ _ _ _ _ (by envok) ‹_›
-  | exact ihSS _ _ (by envok) ‹_›
-  | exact ihS _ _ (by envok) ‹_›
-  | with_reducible apply Pres.bind
-  | with_reducible apply Pres.ite
-  | intro _
-  | split))
-
-/-- the unguarded interpreter preserves the machine invariant on programs of the fragment -/
-theorem exec_pres_frag : ∀ fuel : Nat,
-    (∀ env e, EnvOk env → HtmlOnlyE e → Pres (evalExpr false fuel env e)) ∧
-    (∀ env es, EnvOk env → HtmlOnlyEs es → Pres (evalArgs false fuel env es)) ∧
-    (∀ env kvs, EnvOk env → HtmlOnlyKs kvs → Pres (evalKVs false fuel env kvs)) ∧
-    (∀ env v body r k n, EnvOk env → HtmlOnlySs body → Pres (forLoop false fuel env v body r k n)) ∧
-    (∀ env ss, EnvOk env → HtmlOnlySs ss → Pres (execStmts false fuel env ss)) ∧
-    (∀ env s, EnvOk env → HtmlOnlyS s → Pres (execStmt false fuel env s)) := by
-  intro fuel
-  induction fuel with
-  | zero =>
-    refine ⟨?_, ?_, ?_, ?_, ?_, ?_⟩
-    · intro env e _ _; simp only [evalExpr]; exact Pres.fail
-    · intro env es _ _; simp only [evalArgs]; exact Pres.fail
-    · intro env kvs _ _; simp only [evalKVs]; exact Pres.fail
-    · intro env v body r k n _ _; simp only [forLoop]; exact Pres.fail
-    · intro env ss _ _; simp only [execStmts]; exact Pres.fail
-    · intro env s _ _; simp only [execStmt]; exact Pres.fail
-  | succ fuel ih =>
-    obtain ⟨ihE, ihA, ihK, ihF, ihSS, ihS⟩ := ih
-    refine ⟨?_, ?_, ?_, ?_, ?_, ?_⟩
-    · intro env e hEnv hE
-      cases hE with
-      | meth hf hargs =>
-        simp only [evalExpr]
-        refine Pres.bind (ihA _ _ hEnv hargs) fun rs => ?_
-        split
-        · exact Pres.fail
-        · refine Pres.bind (Pres.readM _) fun v => ?_
-          split
-          · exact Pres.fail
-          · exact Pres.applyNamed_html hEnv.mode (hf _) _
-      | call m hargs =>
-        simp only [evalExpr]
-        split
-        · exact Pres.fail
-        · rename_i md hmd
-          have hb := findMacro_ok hEnv.prog hmd
-          pres2
-      | caller =>
-        simp only [evalExpr]
-        split
-        · exact Pres.fail
-        · rename_i body vars hc
-          have hb := hEnv.caller _ _ hc
-          pres2
-      | super =>
-        simp only [evalExpr]
-        split
-        · exact Pres.fail
-        · rename_i b rest hs
-          have hb : HtmlOnlySs b := hEnv.supers b (by rw [hs]; exact List.mem_cons_self)
-          have hr : ∀ x ∈ rest, HtmlOnlySs x := fun x hx => hEnv.supers x (by rw [hs]; exact List.mem_cons_of_mem _ hx)
-          pres2
-      | loopRec he =>
-        simp only [evalExpr]
-        split
-        · exact Pres.fail
-        · rename_i v body hrl
-          have hb := hEnv.recLoop _ _ hrl
-          pres2
-      | _ => simp only [evalExpr] <;> pres2
-    · intro env es hEnv hE
-      cases hE <;> simp only [evalArgs] <;> pres2
-    · intro env kvs hEnv hE
-      cases hE <;> simp only [evalKVs] <;> pres2
-    · intro env v body r k n hEnv hB
-      simp only [forLoop]; pres2
-    · intro env ss hEnv hS
-      cases hS <;> simp only [execStmts] <;> pres2
-    · intro env s hEnv hS
-      cases hS with
-      | callBlock m hargs hbody =>
-        simp only [execStmt]
-        split
-        · exact Pres.fail
-        · rename_i md hmd
-          have hb := findMacro_ok hEnv.prog hmd
-          pres2
-      | incl name =>
-        simp only [execStmt]
-        split
-        · exact Pres.fail
-        · rename_i t ht
-          obtain ⟨hm, hb⟩ := findTmpl_ok hEnv.prog ht
-          pres2
-      | block name hbody =>
-        simp only [execStmt]
-        split
-        · exact Pres.pure _
-        · rename_i b rest heq
-          obtain ⟨hb, hr⟩ := blockBodies_ok hEnv hbody heq
-          pres2
-      | auto ha hbody =>
-        simp only [execStmt]
-        split
-        · exact Pres.fail
-        · rename_i m heq
-          rw [hEnv.init] at heq
-          have hm := derive_html ha heq
-          pres2
-      | _ => simp only [execStmt] <;> pres2
-
-
-/-! ### whole programs -/
-
-theorem lookup_some_mem {β : Type} {n : String} {l : List (String × β)} {v : β} (h : l.lookup n = some v) :
-    ∃ k, (k, v) ∈ l := by
-  induction l with
-  | nil => simp [List.lookup] at h
-  | cons p ps ih =>
-    obtain ⟨a, b⟩ := p
-    simp only [List.lookup] at h
-    split at h
-    · cases h; exact ⟨a, List.mem_cons_self⟩
-    · obtain ⟨k, hk⟩ := ih h; exact ⟨k, List.mem_cons_of_mem _ hk⟩
-
-def ChainsOk (chains : List (String × List (List Stmt))) : Prop := ∀ entry ∈ chains, ∀ b ∈ entry.2, HtmlOnlySs b
-
-theorem topBlocks_ok : ∀ (ss : List Stmt), HtmlOnlySs ss → ∀ nb ∈ topBlocks ss, HtmlOnlySs nb.2 := by
-  intro ss
-  induction ss with
-  | nil => intro _ nb h; simp [topBlocks] at h
-  | cons s ss ih =>
-    intro hs nb h
-    cases hs with
-    | cons hs1 hss =>
-      cases hs1 with
-      | block name hb =>
-        simp only [topBlocks, List.mem_cons] at h
-        rcases h with rfl | h
-        · exact hb
-        · exact ih hss nb h
-      | _ => simp only [topBlocks] at h; exact ih hss nb h
-
-theorem addBlocks_ok : ∀ (bs : List (String × List Stmt)) (chains : List (String × List (List Stmt))),
-    ChainsOk chains → (∀ nb ∈ bs, HtmlOnlySs nb.2) → ChainsOk (addBlocks chains bs) := by
-  intro bs
-  induction bs with
-  | nil => intro chains hc _; simpa [addBlocks] using hc
-  | cons nb rest ih =>
-    intro chains hc hb
-    obtain ⟨n, b⟩ := nb
-    simp only [addBlocks]
-    apply ih _ _ (fun x hx => hb x (List.mem_cons_of_mem _ hx))
-    have hbok : HtmlOnlySs b := hb (n, b) List.mem_cons_self
-    split
-    · rename_i bodies hl
-      obtain ⟨k, hk⟩ := lookup_some_mem hl
-      intro entry he x hx
-      rcases List.mem_cons.mp he with rfl | he
-      · rcases List.mem_append.mp hx with hx | hx
-        · exact hc _ hk x hx
-        · simp only [List.mem_singleton] at hx; subst hx; exact hbok
-      · exact hc entry (List.mem_filter.mp he).1 x hx
-    · intro entry he x hx
-      rcases List.mem_cons.mp he with rfl | he
-      · simp only [List.mem_singleton] at hx; subst hx; exact hbok
-      · exact hc entry he x hx
-
-theorem buildChains_ok {ts : List Tmpl} (h : ∀ t ∈ ts, HtmlOnlySs t.body) : ChainsOk (buildChains ts) := by
-  unfold buildChains
-  have : ∀ (ts : List Tmpl) (acc : List (String × List (List Stmt))), ChainsOk acc → (∀ t ∈ ts, HtmlOnlySs t.body) →
-      ChainsOk (ts.foldl (fun acc t => addBlocks acc (topBlocks t.body)) acc) := by
-    intro ts
-    induction ts with
-    | nil => intro acc ha _; simpa using ha
-    | cons t ts ih =>
-      intro acc ha ht
-      simp only [List.foldl_cons]
-      exact ih _ (addBlocks_ok _ _ ha (topBlocks_ok _ (ht t List.mem_cons_self))) (fun x hx => ht x (List.mem_cons_of_mem _ hx))
-  exact this ts [] (by intro e he; cases he) h
-
-theorem inheritChain_mem {p : Prog} : ∀ (fuel : Nat) (name : String), ∀ t ∈ inheritChain p fuel name, t ∈ p.templates := by
-  intro fuel
-  induction fuel with
-  | zero => intro name t h; simp [inheritChain] at h
-  | succ fuel ih =>
-    intro name t h
-    simp only [inheritChain] at h
-    split at h
-    · cases h
-    · rename_i t0 h0
-      have hm : t0 ∈ p.templates := (find?_mem_pred (by unfold findTmpl at h0; exact h0)).1
-      split at h
-      · simp only [List.mem_singleton] at h; subst h; exact hm
-      · rcases List.mem_cons.mp h with rfl | h
-        · exact hm
-        · exact ih _ t h
-
-theorem inheritChain_head {p : Prog} {fuel : Nat} {name : String} (h : inheritChain p fuel name ≠ []) :
-    ∃ t, findTmpl p name = some t := by
-  cases fuel with
-  | zero => simp [inheritChain] at h
-  | succ fuel =>
-    simp only [inheritChain] at h
-    split at h
-    · exact absurd rfl h
-    · rename_i t0 h0; exact ⟨t0, h0⟩
-
-theorem Pres.execProgM_frag (fuel : Nat) {p : Prog} (hp : HtmlOnlyP p) (ctx : List (String × CV)) :
-    Pres (Safe.execProgM false fuel p ctx) := by
-  obtain ⟨ihE, ihA, ihK, ihF, ihSS, ihS⟩ := exec_pres_frag fuel
-  unfold Safe.execProgM
-  simp only
-  split
-  · exact Pres.fail
-  · rename_i base hbase
-    have hmem : base ∈ inheritChain p (p.templates.length + 1) p.main := List.mem_of_getLast? hbase
-    have hbt := inheritChain_mem _ _ base hmem
-    have hne : inheritChain p (p.templates.length + 1) p.main ≠ [] := by
-      intro h; rw [h] at hmem; cases hmem
-    obtain ⟨t0, ht0⟩ := inheritChain_head hne
-    have hmode := (findTmpl_ok hp ht0).1
-    refine Pres.bind (Pres.pushCtx _) fun globals => ?_
-    refine Pres.bind ?_ fun _ => Pres.pure _
-    refine ihSS _ _ ⟨hmode, hmode, hp, ?_, ?_, ?_, ?_⟩ (hp base hbt).2.1
-    · intro body vars h; cases h
-    · intro v body h; cases h
-    · intro b hb; cases hb
-    · intro n bs hl b hb
-      obtain ⟨k, hk⟩ := lookup_some_mem hl
-      exact buildChains_ok (fun t ht => (hp t (inheritChain_mem _ _ t ht)).2.1) _ hk b hb
-
-/-- an unguarded run of a program of the fragment ends in a state satisfying the machine invariant -/
-theorem execProg_frag_inv {p : Prog} (hp : HtmlOnlyP p) (ctx : List (String × CV)) (st : St)
-    (h : execProg false p ctx = some st) : StInv st := by
-  unfold execProg at h
-  simp only [Option.map_eq_some_iff] at h
-  obtain ⟨⟨u, st1⟩, h1, rfl⟩ := h
-  exact (Pres.execProgM_frag defaultFuel hp ctx).apply stInv_init h1
+theorem findMacro_mem {p : Prog} {g : String} {home : Tmpl} {md : MacroDef} (h : findMacro p g = some (home, md)) :
+    home ∈ p.templates ∧ md ∈ home.macros := by
+  unfold findMacro at h
+  obtain ⟨t, ht, hx⟩ := List.exists_of_findSome?_eq_some h
+  simp only [Option.map_eq_some_iff, Prod.mk.injEq] at hx
+  obtain ⟨md', hmd, rfl, rfl⟩ := hx
+  exact ⟨ht, List.mem_of_find?_eq_some hmd⟩
 
 end MJ.Safe
